@@ -24,6 +24,7 @@ EXPLANATION = (
     "go through the class constructor. NOT decided: that each constructor's result lies in the type's value set for all inputs, "
     "serialisability of accepted values."
     " Also decided (rules added after the fifth blind round): (R5.7) every value that can initialise a typed list's storage is the result of _convert or an empty literal (reaching definitions); (R5.8) the private attributes a validating property setter writes have no other writer in the package; (R5.9) generated constructor/decoder code never uses a generic field value as a truth value."
+    " Rules added after the sixth blind round: (R5.10) no function of the field-type modules is memoised or fills a module-level container (a conversion cache is keyed by equality of the raw input)."
 )
 RULE_SUMMARY = "instances: store sites, paths to the slot store, guard intervals, (method, raise) pairs, returns; non-trivial = path or interval computed"
 
